@@ -41,6 +41,7 @@ type TUDPTransport struct {
 	conn        *net.UDPConn
 	addr        net.Addr
 	writeBuf    bytes.Buffer
+	overflow    bool // a write did not fit: the message is dropped, writes fail until Flush
 	readByteBuf []byte
 	closed      atomic.Bool
 }
@@ -168,12 +169,24 @@ func (p *TUDPTransport) RemainingBytes() uint64 {
 	return maxSize
 }
 
+// fits reports whether n more bytes fit into the packet being assembled. Once
+// a write did not fit, the partial message is dropped and every write is
+// refused until the next Flush, so that a truncated message is never sent and
+// never ends up in front of the next one.
+func (p *TUDPTransport) fits(n int) bool {
+	if p.overflow || p.writeBuf.Len()+n > MaxLength {
+		p.overflow = true
+		p.writeBuf.Reset()
+	}
+	return !p.overflow
+}
+
 // Write writes specified buf to the write buffer
 func (p *TUDPTransport) Write(buf []byte) (int, error) {
 	if !p.IsOpen() {
 		return 0, thrift.NewTTransportException(thrift.NOT_OPEN, "Connection not open")
 	}
-	if p.writeBuf.Len()+len(buf) > MaxLength {
+	if !p.fits(len(buf)) {
 		return 0, thrift.NewTTransportException(thrift.INVALID_DATA, "Data does not fit within one UDP packet")
 	}
 	n, err := p.writeBuf.Write(buf)
@@ -185,7 +198,7 @@ func (p *TUDPTransport) WriteByte(b byte) error {
 	if !p.IsOpen() {
 		return thrift.NewTTransportException(thrift.NOT_OPEN, "Connection not open")
 	}
-	if p.writeBuf.Len()+1 > MaxLength {
+	if !p.fits(1) {
 		return thrift.NewTTransportException(thrift.INVALID_DATA, "Data does not fit within one UDP packet")
 	}
 
@@ -198,7 +211,7 @@ func (p *TUDPTransport) WriteString(s string) (int, error) {
 	if !p.IsOpen() {
 		return 0, thrift.NewTTransportException(thrift.NOT_OPEN, "Connection not open")
 	}
-	if p.writeBuf.Len()+len(s) > MaxLength {
+	if !p.fits(len(s)) {
 		return 0, thrift.NewTTransportException(thrift.INVALID_DATA, "Data does not fit within one UDP packet")
 	}
 
@@ -210,6 +223,11 @@ func (p *TUDPTransport) WriteString(s string) (int, error) {
 func (p *TUDPTransport) Flush() error {
 	if !p.IsOpen() {
 		return thrift.NewTTransportException(thrift.NOT_OPEN, "Connection not open")
+	}
+
+	if p.overflow {
+		p.overflow = false // the message was dropped by fits; the next one starts clean
+		return thrift.NewTTransportException(thrift.INVALID_DATA, "Message dropped: data did not fit within one UDP packet")
 	}
 
 	_, err := p.conn.Write(p.writeBuf.Bytes())
